@@ -80,9 +80,12 @@ def _run_inline(case):
   return _VS.run_inline(case)
 
 
-# A second hub mode (threaded select hub under the deterministic thread scheduler) plugs in here:
-# a function case -> event log in the format of pvf/sim/vsched.py.
-MODES = {"inline": _run_inline}
+# hub mode -> function case -> event log in the format of pvf/sim/vsched.py
+def _run_threaded(case):
+  return _VS.run_threaded(case)
+
+
+MODES = {"inline": _run_inline, "threaded": _run_threaded}
 
 
 _STRUCTURAL = ("task-killed", "no-quiescence", "scheduler-died", "raising-task-kills-scheduler", "subtask-exception-not-delivered")
@@ -107,7 +110,9 @@ def run_case(case):
     tcase = _SM.twin(case, rs)
     tlog = runner(tcase)
     tf = _SM.check(tcase, tlog)
-    if not any(f[0] in _STRUCTURAL for f in fails + tf):
+    # with a deviating thread schedule the decision indices of the two runs need not line up
+    deviating = mode == "threaded" and bool((case.get("sched") or {}).get("gaps") or (case.get("sched") or {}).get("list"))
+    if not deviating and not any(f[0] in _STRUCTURAL for f in fails + tf):
       fails += _SM.compare(case, log, tlog)
   for clause, msg, disc in fails:
     out.fail(clause, msg, **disc)
@@ -210,6 +215,27 @@ def _enum_io(tier):
                                  {"prog": extra + [{"op": "select", "r": r1, "t": t1}, {"op": "yn", "n": 0.25}]}]}
 
 
+_SCHEDS = [{}, {"base": 1}, {"gaps": [[3, 1], [5, 1], [7, 2], [11, 1], [13, 1], [17, 2], [19, 1], [23, 1]]},
+           {"base": 1, "gaps": [[g, 1] for g in (2, 4, 6, 8, 10, 12, 14, 16, 18, 20)]}]
+
+
+def _enum_threaded(tier):
+  """A thin slice of the pairs grid with the select hub and the scheduler on their own threads."""
+  maxlen = 2 if tier == "thorough" else 1
+  for sc in (_SCHEDS if tier == "thorough" else _SCHEDS[:3]):
+    for p0 in _programs(1, maxlen):
+      for p1 in _programs(0, 1):
+        yield {"mode": "threaded", "sched": sc, "horizon": 8, "tasks": [{"prog": p0}, {"prog": p1}]}
+  # timers and descriptors
+  for sc in _SCHEDS[:2] if tier == "quick" else _SCHEDS:
+    for rec in (False, True):
+      for comp in ([], [{"op": "sleep", "n": 0.375}, {"op": "cancel", "timer": 0}], [{"op": "busy", "d": 1.0}, {"op": "y0"}]):
+        for a0 in (None, 0, 0.25, 2.5):
+          yield {"mode": "threaded", "sched": sc, "horizon": 4, "fds": [{"r_at": a0}, {"r_at": 0.5, "w_at": a0}],
+                 "timers": [{"t": 0.25, "recurring": rec, "rets": [None, None, False]}],
+                 "tasks": [{"prog": comp}, {"prog": [{"op": "select", "r": [0, 1], "t": 0.75}, {"op": "select", "r": [0], "w": [1], "t": None}]}]}
+
+
 def _enum_locks(tier):
   v = [{"op": "acquire", "lock": 0}, {"op": "acquire", "lock": 0, "blocking": False}, {"op": "release", "lock": 0},
        {"op": "y0"}, {"op": "yn", "n": 0.25}]
@@ -231,8 +257,9 @@ _DUR = [0.125, 0.25, 0.375, 0.5, 0.75, 1.0, 1.5, 2.5]
 _AT = [0, 0.125, 0.25, 0.5, 0.75, 1.0, 1.5, 2.5, 4.5]
 
 
-def _strategy(tier):
+def _strategy(tier, mode="inline"):
   big = tier == "thorough"
+  modes = st.just(mode)
   dur = st.sampled_from(_DUR)
   at = st.sampled_from(_AT)
   idx = st.integers(0, 4)
@@ -302,8 +329,13 @@ def _strategy(tier):
     timers = draw(st.lists(timer, max_size=3))
     items = [["task", i] for i in range(len(tasks))] + [["timer", i] for i in range(len(timers))]
     order = draw(st.permutations(items)) if len(items) > 1 else items
+    mode = draw(modes)
+    sched = {}
+    if mode == "threaded":
+      sched = {"base": draw(st.integers(0, 1)),
+               "gaps": draw(st.lists(st.tuples(st.integers(0, 120), st.integers(1, 3)).map(list), max_size=10))}
     return {
-      "mode": "inline",
+      "mode": mode, "sched": sched,
       "hub": draw(st.sampled_from(["select", "select", "epoll"])),
       "sched_thread": draw(st.booleans()),
       "rand": draw(st.lists(st.sampled_from([0.0, 0.125, 0.375, 0.5, 0.625, 0.875]), max_size=6)),
@@ -325,6 +357,8 @@ def plan(tier):
       Enum("io", lambda: _enum_io("quick"), shards=8),
       Enum("locks", lambda: _enum_locks("quick"), shards=4),
       Hyp("programs", lambda: _strategy("quick"), examples=4000, shards=16),
+      Enum("threaded-grid", lambda: _enum_threaded("quick"), shards=8),
+      Hyp("threaded-programs", lambda: _strategy("quick", "threaded"), examples=400, shards=8),
     ]
   return [
     Enum("pairs", lambda: _enum_pairs("thorough"), shards=16),
@@ -332,4 +366,6 @@ def plan(tier):
     Enum("io", lambda: _enum_io("thorough"), shards=16),
     Enum("locks", lambda: _enum_locks("thorough"), shards=16),
     Hyp("programs", lambda: _strategy("thorough"), examples=300000, shards=16),
+    Enum("threaded-grid", lambda: _enum_threaded("thorough"), shards=16),
+    Hyp("threaded-programs", lambda: _strategy("thorough", "threaded"), examples=40000, shards=16),
   ]
